@@ -16,6 +16,7 @@ package trustpolicy
 import (
 	"errors"
 	"fmt"
+	"maps"
 	"reflect"
 	"strings"
 
@@ -138,9 +139,11 @@ func (policyDoc *BlobDocument) GetGlobalTrustPolicy() (*BlobTrustPolicy, error) 
 
 // clone returns a pointer to the deep copied [BlobTrustPolicy]
 func (t *BlobTrustPolicy) clone() *BlobTrustPolicy {
+	signatureVerification := t.SignatureVerification
+	signatureVerification.Override = maps.Clone(t.SignatureVerification.Override)
 	return &BlobTrustPolicy{
 		Name:                  t.Name,
-		SignatureVerification: t.SignatureVerification,
+		SignatureVerification: signatureVerification,
 		TrustedIdentities:     append([]string(nil), t.TrustedIdentities...),
 		TrustStores:           append([]string(nil), t.TrustStores...),
 		GlobalPolicy:          t.GlobalPolicy,
